@@ -81,6 +81,7 @@ def run_families(ctx, bdir, families, episodes, seed, tracedir=None, replay=None
     if replay:
         env['VERIF_REPLAY'] = replay
     crashes, skip, logs = [], 0, ''
+    retried = {}
     t0 = time.time()
     while True:
         env['VERIF_SKIP'] = str(skip)
@@ -95,6 +96,18 @@ def run_families(ctx, bdir, families, episodes, seed, tracedir=None, replay=None
                 break
             continue
         if rc != 0 and not m:
+            # the harness process died without a watchdog record (an internal fault of the shim
+            # runtime, a runtime fatal error). Episodes are deterministic: re-run from the episode
+            # that was in progress; only a fault that repeats at the same episode is reported.
+            done = 0
+            if os.path.exists(out):
+                done = sum(1 for l in open(out) if l.strip())
+            trim_slices(env.get('VERIF_SLICES') or os.environ.get('VERIF_SLICES'))
+            if retried.get(done, 0) < 1:
+                retried[done] = retried.get(done, 0) + 1
+                ctx.notes.append('harness process exited with status %d at episode %d; re-run from there (%s)' % (rc, done + 1, ' '.join(log[-400:].split())[:300]))
+                skip = done
+                continue
             crashes.append(dict(family='?', seed=seed, strategy='?', reason='harness exited with status %d: %s' % (rc, log[-1500:])))
         break
     results = []
@@ -107,6 +120,21 @@ def run_families(ctx, bdir, families, episodes, seed, tracedir=None, replay=None
                 except ValueError:
                     pass
     return results, crashes, logs
+
+
+def trim_slices(path):
+    """after a crash the buffered slice file may end inside a block: cut it after the last END line"""
+    if not path or not os.path.exists(path):
+        return
+    data = open(path, 'rb').read()
+    pos, i = 0, 0
+    for line in data.splitlines(keepends=True):
+        i += len(line)
+        if line.startswith(b'END') and line.endswith(b'\n'):
+            pos = i
+    if pos < len(data):
+        with open(path, 'wb') as f:
+            f.write(data[:pos])
 
 
 def summarize(results):
